@@ -175,10 +175,57 @@ fn dense(thorough: bool) -> InputFam {
     }
 }
 
+/// well-formed: one large, highly compressible cel (image / tilemap) and F linked cels pointing at it
+fn links_to_big(thorough: bool) -> InputFam {
+    let mut shapes: Vec<(usize, usize, u16)> = Vec::new();
+    for kind in 0..2usize {
+        for f in [10usize, 100, 1000] {
+            for side in [512u16, 1024] {
+                shapes.push((kind, f, side));
+            }
+        }
+        if thorough {
+            shapes.push((kind, 10000, 1024));
+            shapes.push((kind, 65534, 512));
+        }
+    }
+    let shapes = Arc::new(shapes);
+    let s2 = shapes.clone();
+    InputFam {
+        name: "links-to-big".into(),
+        what: "well-formed files: one side x side cel of zeros (image cel / tilemap cel, compressed to a few KB) in frame 0 and F frames each holding one linked cel that points at it, F in {10,100,1000} (thorough: 10000, 65534), side in {512,1024}".into(),
+        n: shapes.len(),
+        gen: Box::new(move |i| {
+            let (kind, nf, side) = shapes[i];
+            let fmt = Fmt::Rgba;
+            let mut f = gen::file(4, 4, &fmt, &vec![1u16; nf + 1]);
+            if kind == 0 {
+                f.frames[0].push(Body::Layer(Layer::image("l")));
+                f.frames[0].push(zcel(0, 0, 0, 255, side, side, vec![0u8; side as usize * side as usize * 4], 9));
+            } else {
+                f.frames[0].push(Body::Tileset(tileset(0, 1, 1, 1, vec![0; 4], "t")));
+                f.frames[0].push(Body::Layer(Layer::tilemap("l", 0)));
+                let mut c = tm_cel(0, 0, 0, 255, side, side, vec![0; side as usize * side as usize]);
+                if let Body::Cel(cc) = &mut c {
+                    if let CelBody::Tilemap { z, .. } = &mut cc.body {
+                        *z = Zlib::Level(9);
+                    }
+                }
+                f.frames[0].push(c);
+            }
+            for k in 1..=nf {
+                f.frames[k].push(link_cel(0, 0, 0, 255, 0));
+            }
+            f.encode()
+        }),
+        label: Box::new(move |i| format!("kind={} links={} side={}", ["image", "tilemap"][s2[i].0], s2[i].1, s2[i].2)),
+    }
+}
+
 pub fn run(ctx: &Ctx) -> i32 {
     let thorough = ctx.tier == Tier::Thorough;
     let bases = based_files(false);
-    let mut fams: Vec<InputFam> = vec![inflate_family(&bases), bombs(thorough), dense(thorough)];
+    let mut fams: Vec<InputFam> = vec![inflate_family(&bases), bombs(thorough), dense(thorough), links_to_big(thorough)];
     // the C04 corruption families under the memory oracle as well (byte sweeps only in thorough)
     for f in all_families(ctx.tier) {
         if (f.name.starts_with("M1") && !thorough) || f.name == "M2-structural-big" {
@@ -191,7 +238,7 @@ pub fn run(ctx: &Ctx) -> i32 {
         if !ctx.wants_family(&fam.name) {
             continue;
         }
-        let heavy = fam.name == "deflate-bombs" || fam.name == "dense-cel-table" || fam.name.starts_with("M6");
+        let heavy = fam.name == "deflate-bombs" || fam.name == "dense-cel-table" || fam.name == "links-to-big" || fam.name.starts_with("M6");
         let pool = Pool::new("checked", if heavy { 3 } else { 16 }, if heavy { 300.0 } else { 30.0 });
         let only_idx: Option<usize> = ctx.only.as_ref().and_then(|(_, c)| c.strip_prefix("idx=").and_then(|r| r.split(' ').next()).and_then(|s| s.parse().ok()));
         let indices: Vec<usize> = match only_idx {
